@@ -58,6 +58,44 @@ fn soft_cap(c: &SrtlaConnection) -> f64 {
     }
 }
 
+/// The documented quality multiplier, written out again: 1.1 with no NAK ever; in the first 30 s of the connection
+/// 1.1 / 0.98 only; afterwards 1 - 0.5 * exp(-age / 2000 ms), times 0.7 while a burst of 5 or more is under 3 s old;
+/// times the round-trip bonus clamp(200 / max(srtt, 50), 1, 1.03) when there is a smoothed round-trip time.
+fn quality_fresh(c: &SrtlaConnection, now: u64) -> f64 {
+    let age = now.saturating_sub(c.reconnection.connection_established_ms);
+    let naks = c.congestion.nak_count;
+    if age < 30_000 {
+        return if naks == 0 { 1.1 } else { 0.98 };
+    }
+    let last = c.congestion.last_nak_time_ms;
+    let m = if last != 0 {
+        let nak_age = now.saturating_sub(last);
+        let mut m = 1.0 - 0.5 * (-(nak_age as f64) / 2000.0).exp();
+        if c.congestion.nak_burst_count >= 5 && nak_age < 3000 {
+            m *= 0.7;
+        }
+        m
+    } else if naks == 0 {
+        1.1
+    } else {
+        1.0
+    };
+    let srtt = c.get_smooth_rtt_ms();
+    let bonus = if srtt <= 0.0 { 1.0 } else { (200.0 / srtt.max(50.0)).min(1.03).max(1.0) };
+    m * bonus
+}
+
+/// The multiplier a decision at `now` may use: the value cached before the call while that is under 50 ms old
+/// (the documented cache), the freshly computed one otherwise.
+fn quality_expected(before: &SrtlaConnection, now: u64) -> f64 {
+    let p = before.verif_private();
+    if now.saturating_sub(p.quality_last_calculated_ms) < 50 {
+        p.quality_multiplier
+    } else {
+        quality_fresh(before, now)
+    }
+}
+
 fn over_cap(c: &SrtlaConnection) -> bool {
     if c.cc_target_bps == 0 {
         return false;
@@ -78,11 +116,12 @@ fn decide(
     quality: bool,
     timeout: u64,
     require_connected: bool,
+    now: u64,
 ) -> (Option<usize>, Vec<f64>, Vec<bool>, bool) {
     let n = before.len();
     let skipped: Vec<bool> = (0..n)
         .map(|i| {
-            oracle_timed_out(&before[i], NOW, timeout)
+            oracle_timed_out(&before[i], now, timeout)
                 || matches!(before[i].phase, LinkPhase::Registering)
                 || after[i].is_stall_gated()
         })
@@ -108,7 +147,7 @@ fn decide(
         let base = base_score(&before[i]) as f64 * phase_weight(&before[i]);
         let cap = soft_cap(&before[i]);
         let s = if quality {
-            base * after[i].verif_private().quality_multiplier * cap * gate
+            base * quality_expected(&before[i], now) * cap * gate
         } else {
             base * cap * gate
         };
@@ -147,12 +186,13 @@ fn judge(
     result: Option<usize>,
     quality: bool,
     timeout: u64,
+    now: u64,
 ) -> Result<(), Fail> {
     let n = before.len();
     if result.is_some_and(|r| r >= n) {
         return Err(Fail::new("index-out-of-range", format!("result {result:?} with {n} links")));
     }
-    let (exp_a, scores, scored, any_unc) = decide(before, after, last, quality, timeout, true);
+    let (exp_a, scores, scored, any_unc) = decide(before, after, last, quality, timeout, true, now);
     // factor ranges on every scored link
     for i in 0..n {
         if !scored[i] {
@@ -162,6 +202,10 @@ fn judge(
             let q = after[i].verif_private().quality_multiplier;
             if !q.is_finite() || q < Q_MIN - 1e-12 || q > Q_MAX + 1e-12 {
                 return Err(Fail::new("quality-factor-out-of-range", format!("link {i}: quality multiplier {q}")));
+            }
+            let e = quality_expected(&before[i], now);
+            if !e.is_finite() || e < Q_MIN - 1e-12 || e > Q_MAX + 1e-12 {
+                return Err(Fail::new("MACHINERY", format!("link {i}: the oracle's own quality multiplier {e} is outside the documented range")));
             }
         }
         let c = soft_cap(&before[i]);
@@ -181,7 +225,7 @@ fn judge(
                 "skipped-link-chosen"
             };
             // tolerate only if the alternative reading explains it
-            let (exp_b, _, scored_b, _) = decide(before, after, last, quality, timeout, false);
+            let (exp_b, _, scored_b, _) = decide(before, after, last, quality, timeout, false, now);
             if !(scored_b[r] && exp_b == result) {
                 return Err(Fail::new(why, format!("result {r} is a link the scheduler must skip (scores {scores:?}, scored {scored:?})")));
             }
@@ -191,7 +235,7 @@ fn judge(
         return Ok(());
     }
     // other reading of "unconstrained exists" (differs only with a disconnected-but-schedulable link; that is C03's subject)
-    let (exp_b, scores_b, scored_b, _) = decide(before, after, last, quality, timeout, false);
+    let (exp_b, scores_b, scored_b, _) = decide(before, after, last, quality, timeout, false, now);
     if result == exp_b {
         return Ok(());
     }
@@ -238,7 +282,24 @@ fn one(
     let before: Vec<SrtlaConnection> = links.to_vec();
     let mut v: Vec<SrtlaConnection> = links.to_vec();
     let r = select_connection_idx(&mut v, last, NOW, &c);
-    let mut verdict = judge(&before, &v, last, r, quality, timeout);
+    let mut verdict = judge(&before, &v, last, r, quality, timeout, NOW);
+    if verdict.is_ok() && quality {
+        // (0) the same links 60 ms later, each with one more NAK 5 ms before the decision: every cached multiplier
+        // is now over 50 ms old, so the decision has to be the one for the multipliers of *this* instant
+        let later = NOW + 60;
+        let mut w = v.clone();
+        for c in w.iter_mut() {
+            c.congestion.nak_count += 1;
+            c.congestion.last_nak_time_ms = later - 5;
+        }
+        let before2 = w.clone();
+        crate::util::set_now(later);
+        let r2 = select_connection_idx(&mut w, r.or(last), later, &c);
+        crate::util::set_now(NOW);
+        if let Err(f) = judge(&before2, &w, r.or(last), r2, quality, timeout, later) {
+            verdict = Err(Fail::new(&format!("later:{}", f.key), format!("60 ms after a first decision ({r:?}) and one more NAK on every link: {}", f.msg)));
+        }
+    }
     if verdict.is_ok() {
         // (1) idempotence on the unchanged state
         let mut v2 = v.clone();
@@ -303,6 +364,8 @@ fn lib_multi(size: usize) -> Vec<Spec> {
         Spec { window: 22000, load: Load::AtMin, ..c }, // exactly 1.10 x the previous one's base
         Spec { window: 21999, load: Load::AtMin, ..c }, // just under 1.10 x
         Spec { life: Life::Warming, ..c },
+        // gated and freshly NAKed: 2% of 60000 x 0.38 = 460, against 606 x 1.1 of the loaded clean link above
+        Spec { gate: Gate::Weak, window: 60000, nak: Nak::Burst, ..c },
         Spec { gate: Gate::Weak, ..c },
         Spec { gate: Gate::LossDegraded, load: Load::AtMin, ..c },
         Spec { cc: Cc::Tiny, load: Load::Huge, ..c },
@@ -501,14 +564,14 @@ pub fn run(tier: Tier) -> Report {
     };
     let l1 = lib1(q);
     do_sweep(1, &l1, "full per-link product");
-    let lm = lib_multi(44);
-    do_sweep(2, &lm, "Lib44^2");
+    let lm = lib_multi(45);
+    do_sweep(2, &lm, "Lib45^2");
     do_sweep(2, &lib_729(), "Lib729^2 (life x load x window x gate x cc x nak)");
     if q {
-        do_sweep(3, &lib_multi(36), "Lib36^3");
+        do_sweep(3, &lib_multi(37), "Lib37^3");
     } else {
-        do_sweep(3, &lm, "Lib44^3");
-        do_sweep(4, &lib_multi(24), "Lib24^4");
+        do_sweep(3, &lm, "Lib45^3");
+        do_sweep(4, &lib_multi(25), "Lib25^4");
     }
     let calls = acc.calls.load(Ordering::Relaxed);
     rep.states = acc.distinct.lock().unwrap().len() as u64;
@@ -519,9 +582,9 @@ pub fn run(tier: Tier) -> Report {
     rep.set("decisions_that_left_the_previous_link", json!(acc.switched.load(Ordering::Relaxed)));
     rep.set("decisions_that_kept_the_previous_link", json!(acc.held.load(Ordering::Relaxed)));
     rep.samples.push(json!({"links": [spec_to_json(&lm[1]), spec_to_json(&lm[2])], "config": "quality on, guard on, (32,3000), last Some(0): second link has exactly 1.10 x the first one's base score"}));
-    rep.samples.push(json!({"links": [spec_to_json(&lm[5]), spec_to_json(&lm[7])], "config": "weak link vs over-cap link, no unconstrained link"}));
-    rep.set("oracle", json!("independent per-link score base x phase weight {0.8 warming} x quality (value read back from the cache; range-checked [0.35, 1.1x1.03]) x soft cap clamp((t-m)/t,0.1,1) x 0.02 gate iff (weak or loss-degraded) and an unconstrained link exists; skipped = timed out / registering / stall-gated / over its in-flight cap while an unconstrained link exists; decision = first maximum, kept on the previous link unless it was skipped or best >= 1.10 x its score; plus idempotence (same call twice; re-select with the result as previous link)"));
-    rep.assume("the quality multiplier actually used is read back from the 50 ms cache after the call (hook view) and only range-checked; its formula is left to the repository's unit tests");
+    rep.samples.push(json!({"links": [spec_to_json(&lm[6]), spec_to_json(&lm[8])], "config": "weak link vs over-cap link, no unconstrained link"}));
+    rep.set("oracle", json!("independent per-link score base x phase weight {0.8 warming} x quality (the documented formula written out again, evaluated at the instant of the decision unless the value cached before the call is under 50 ms old; range-checked [0.35, 1.1x1.03]) x soft cap clamp((t-m)/t,0.1,1) x 0.02 gate iff (weak or loss-degraded) and an unconstrained link exists; skipped = timed out / registering / stall-gated / over its in-flight cap while an unconstrained link exists; decision = first maximum, kept on the previous link unless it was skipped or best >= 1.10 x its score; plus idempotence (same call twice; re-select with the result as previous link)"));
+    rep.set("later_decision", json!("after every judged decision with quality scoring on, the same links are judged again 60 ms later with one more NAK on each: the cached multipliers are then stale and the decision must follow the fresh ones"));
     rep.assume("in states containing a disconnected link with a schedulable phase the oracle accepts a decision consistent with either reading of 'an unconstrained uplink exists' (with or without requiring connected); that difference is judged by C03");
     rep.assume("floating point: oracle and code are compared exactly; a mismatch is tolerated only when the competing scores differ by less than 1e-9 relative");
     for v in acc.fails.lock().unwrap().drain(..) {
